@@ -358,7 +358,7 @@ def run(tier, seed):
     rng = random.Random(seed)
     vals = values(rng)
     if tier == 'quick':
-        variants = [('release', 1.0), ('dev', 0.5)]
+        variants = [('release', 1.0), ('dev', 0.5), ('std', 0.25)]
         lens = [1, 2, 3, 4, 5, 6, 7, 8, 9, 10, 100]
         nd = 40
     else:
